@@ -1165,6 +1165,66 @@ fn check_stream_aggregates(events: &[StreamEvent], cfg: &WindowConfig, how: &str
             }
         }
     }
+    // reduce: one result per non-empty window, a fold over exactly its events - the reducer counts them
+    {
+        let mut exp: Vec<usize> = reference.windows().iter().map(|w| w.count()).filter(|c| *c > 0).collect();
+        exp.sort();
+        let count_of = |e: &StreamEvent| -> usize {
+            match e.data.get("~n") {
+                Some(Value::Integer(n)) => *n as usize,
+                _ => 1,
+            }
+        };
+        let reduced = WindowedStream::new(events.to_vec(), cfg.clone()).reduce(move |mut x, y| {
+            let n = count_of(&x) + count_of(&y);
+            x.data.insert("~n".to_string(), Value::Integer(n as i64));
+            x
+        });
+        let mut got: Vec<usize> = reduced.iter().map(count_of).collect();
+        got.sort();
+        if got != exp {
+            return Err(Verdict::fail(
+                "agg-windowedstream-reduce",
+                format!("{}: reduce folded {:?} events per window (sorted), the windows hold {:?}", how, got, exp),
+            ));
+        }
+    }
+    // keyed: the stream is split by key (the parity of the arrival index) and every key's events are windowed on
+    // their own; each key's per-window aggregates equal the folds over the windows of that key's events
+    for field in ["a"] {
+        for name in ["count", "sum", "min", "max", "average"] {
+            let keyed = DataStream::from_events(events.to_vec()).key_by(|e| e.metadata.sequence % 2).window(cfg.clone());
+            let res: HashMap<u64, Vec<AggregateResult>> = match name {
+                "count" => keyed.aggregate(ops::Count),
+                "sum" => keyed.aggregate(ops::Sum::new(field)),
+                "min" => keyed.aggregate(ops::Min::new(field)),
+                "max" => keyed.aggregate(ops::Max::new(field)),
+                _ => keyed.aggregate(ops::Average::new(field)),
+            };
+            for key in [0u64, 1] {
+                let mine: Vec<StreamEvent> = events.iter().filter(|e| e.metadata.sequence % 2 == key).cloned().collect();
+                let refw = WindowedStream::new(mine.clone(), cfg.clone());
+                let exp = sorted_opts(refw.windows().iter().map(|w| fold_agg(name, &fold(w.events().iter(), field))).collect());
+                let mut got = Vec::new();
+                for r in res.get(&key).map(|v| v.as_slice()).unwrap_or(&[]) {
+                    match ops_num(r) {
+                        Ok(x) => got.push(x),
+                        Err(o) => return Err(Verdict::fail(format!("agg-keyed-{}", name), format!("{} key {}: result {}", how, key, o))),
+                    }
+                }
+                let got = sorted_opts(got);
+                if mine.is_empty() && got.is_empty() {
+                    continue;
+                }
+                if got.len() != exp.len() || got.iter().zip(&exp).any(|(g, e)| !approx_opt(*g, *e)) {
+                    return Err(Verdict::fail(
+                        format!("agg-keyed-{}", name),
+                        format!("{} keyed by arrival parity, key {} field {:?}: per-window results (sorted) {:?}, folds over the windows of that key's events give {:?}", how, key, field, got, exp),
+                    ));
+                }
+            }
+        }
+    }
     Ok(n)
 }
 
